@@ -31,7 +31,7 @@ EXPLANATION = (
     'occur in mirrored white/black pairs.'
     ' (6) PGN scanner look-ahead: every character read is appended, matched as a delimiter, skipped as white space or handed back before the next read / the return.'
     ' Added later; the UCI promotion suffix of both printers is obtained by interpreting them per promotion code (fall-through and table look-up forms included).'
-    ' Added later; (8) in every token-reading loop of the PGN parser the arm that recognises END has no path back to the loop header. (9) the castling text of the short / long form is printed for exactly the king\'s two-square moves from home (all 64 x 64 x 12 from/to/piece). (10) readFEN bounds the men per side by 16, which the unchecked 256-entry MoveList relies on - found and fixed defect D18. (11) the disambiguation scan of moveToString visits every index of the legal-move list (sizes 0..8 evaluated). (3, extended) an external half-move clock is bounded above as well as below before it is stored - found and fixed defect D21.')
+    ' Added later; (8) in every token-reading loop of the PGN parser the arm that recognises END has no path back to the loop header. (9) the castling text of the short / long form is printed for exactly the king\'s two-square moves from home (all 64 x 64 x 12 from/to/piece). (10) readFEN bounds the men per side by 16, which the unchecked 256-entry MoveList relies on - found and fixed defect D18. (11) the disambiguation scan of moveToString visits every index of the legal-move list (sizes 0..8 evaluated). (3, extended) an external half-move clock is bounded above as well as below before it is stored - found and fixed defect D21. (12) every token read with a running index in the UCI command handler is preceded by a fresh test that the index is below the token count.')
 UNDECIDED = ('uniqueness of short move forms, round-trip equality of values, robustness against every byte string (needs execution); '
              'PGN tree round trip beyond the scanner look-ahead discipline of clause 6.')
 ASSUMPTIONS = ['char is an 8-bit type; the piece enumerators are those of Piece::Type',
@@ -56,6 +56,7 @@ def run(fb, rep, tier):
     c9_castle_text(fb, rep)
     c10_men_per_side_bounded(fb, rep)
     c11_disambiguation_scan(fb, rep)
+    c12_token_index_bounded(fb, rep)
 
 
 PIECES = ['WKING', 'WQUEEN', 'WROOK', 'WBISHOP', 'WKNIGHT', 'WPAWN', 'BKING', 'BQUEEN', 'BROOK', 'BBISHOP', 'BKNIGHT', 'BPAWN']
@@ -1020,3 +1021,98 @@ def c11_disambiguation_scan(fb, rep):
         rep.ob(clause, 'K12 finite evaluation', 'moveToString: scan #%d of the legal-move list visits every index 0..size-1 (sizes 0..8)' % n_scans, not bad,
                '%s:%s' % (f.file, (f.blocks[h].get('term') or {}).get('ln')), '; '.join(bad[:3]) or 'all sizes covered', f.sname)
     rep.floor(clause, 'scans of the legal-move list in moveToString', n_scans, 1)
+
+
+# ----------------------------------------------------------------------------- .12
+
+def c12_token_index_bounded(fb, rep):
+    """K12 the UCI command line is split into tokens and read with a running index: `tokens[idx++]`.  A command line is
+    arbitrary text, so every read with a variable index needs a test `idx < number of tokens` that is still *fresh*: it is
+    evaluated with idx equal to the token count (the read must then be unreachable), and no increment of the index lies
+    between the test and the read.  The argument of the last sub-command of a `go` line (`go mate`) is the place where a
+    stale test - the loop condition, checked before the sub-command itself was consumed - reads past the vector."""
+    clause = 'C17.12'
+    f = fb.find1('UCIProtocol::handleCommand')
+    if rep.need(clause, f, 'UCIProtocol::handleCommand') is None:
+        return
+    decls = {v['id']: v for _, _, e in f.events() if e.get('k') == 'decl' for v in e.get('vars', [])}
+    vecs = {vid for vid, v in decls.items() if 'vector<std::string' in (v.get('t') or '') or 'vector<std::__cxx11::basic_string' in (v.get('t') or '') or (v.get('t') or '').startswith('std::vector<std::')}
+    sizes = {vid for vid, v in decls.items() if v.get('init') is not None and any(isinstance(n, dict) and n.get('k') == 'call' and cname(n).split('::')[-1] == 'size' and
+                                                                                 (_strip(n.get('recv')) or {}).get('id') in vecs for n in walk(v['init']))}
+    if rep.need(clause, None if not (vecs and sizes) else 1, 'the token vector and its size local') is None:
+        return
+    doms_all = f.dominators()
+
+    _mods = {}
+
+    def mods(vid):
+        # every node that changes the index, once (the first event of its block that contains it)
+        if vid not in _mods:
+            out, seen_nodes = [], set()
+            for b, i, e in f.events():
+                for n in walk(e):
+                    if isinstance(n, dict) and (e.get('ln'), show(n, 40)) not in seen_nodes and ((n.get('k') == 'incdec' and (_strip(n.get('e')) or {}).get('id') == vid) or
+                                                                         (n.get('k') == 'asg' and (_strip(n.get('l')) or {}).get('id') == vid)):
+                        seen_nodes.add((e.get('ln'), show(n, 40)))
+                        out.append((b, i, e.get('ln')))
+            _mods[vid] = out
+        return _mods[vid]
+
+    def reaches_avoiding(start, target, avoid_block):
+        (sb, si), (tb, ti) = start, target
+        if sb == tb and si < ti:
+            return True
+        from collections import deque
+        seen, dq = set(), deque(s_ for s_ in f.blocks[sb]['succ'] if s_ in f.blocks)
+        while dq:
+            x = dq.popleft()
+            if x in seen or x == avoid_block:
+                continue
+            seen.add(x)
+            if x == tb:
+                return True
+            dq.extend(s_ for s_ in f.blocks[x]['succ'] if s_ in f.blocks)
+        return False
+    n = 0
+    judged = set()
+    for b, i, e in f.events():
+        acc = [x for x in walk(e) if isinstance(x, dict) and x.get('k') == 'call' and x.get('op') == '[]' and (_strip(x.get('recv')) or {}).get('id') in vecs and x.get('args')]
+        for x in acc:
+            if (e.get('ln'), show(x, 60)) in judged:
+                continue
+            judged.add((e.get('ln'), show(x, 60)))
+            ivs = [v_.get('id') for v_ in walk(x['args'][0]) if isinstance(v_, dict) and v_.get('k') == 'var' and v_.get('vk') == 'local' and v_.get('id') not in sizes]
+            if len(set(ivs)) != 1:
+                continue            # constant index: judged by the argument-count tests of its command (C17.2 family)
+            vid = ivs[0]
+            n += 1
+            ok = False
+            # an index that still has its initial constant value at the read (no change can reach it) is tested through the
+            # token count alone: `if (nTok < 2) return; ... tokens[idx]` with idx == 1
+            c0 = (_strip(decls.get(vid, {}).get('init')) or {}).get('cv')
+            untouched = c0 is not None and not any(mln != e.get('ln') and reaches_avoiding((mb, mi), (b, i), None) for mb, mi, mln in mods(vid))
+            for N in ((c0,) if untouched else (1,)):
+                leaf = lambda t, _N=N: ('v', _N) if t.get('k') == 'var' and (t.get('id') == vid or t.get('id') in sizes) else None
+                # the guards that exclude idx == size, nearest first, and whether each is still fresh at the read
+                for d in sorted(doms_all.get(b, set()), reverse=True):
+                    blk = f.blocks[d]
+                    term = blk.get('term') or {}
+                    c = term.get('cond')
+                    if d == b or c is None or len(blk['succ']) != 2 or not any(isinstance(n_, dict) and n_.get('k') == 'var' and (n_.get('id') == vid or (untouched and n_.get('id') in sizes)) for n_ in walk(c)):
+                        continue
+                    s0, s1 = blk['succ']
+                    in0 = (s0 == b) or (s0 in doms_all.get(b, set()))
+                    in1 = (s1 == b) or (s1 in doms_all.get(b, set()))
+                    if in0 == in1:
+                        continue
+                    v = G.tv(c, leaf)
+                    if v is None or bool(v) == in0:
+                        continue        # this test does not exclude idx == size on the side that leads to the read
+                    # an increment on the read's own source line is the post-increment of this very read
+                    stale = any(mln != e.get('ln') and d in doms_all.get(mb, set()) and reaches_avoiding((mb, mi), (b, i), d) and not (mb == b and mi > i) for mb, mi, mln in mods(vid))
+                    if not stale:
+                        ok = True
+                        break
+            rep.ob(clause, 'K12 index bound', 'handleCommand: the token read with a running index at line %s is preceded by a fresh test that the index is below the token count' % (e.get('ln') or x.get('ln')),
+                   ok, R.site(f, e), show(x, 60), f.sname)
+    rep.floor(clause, 'token reads with a running index', n, 10)
